@@ -4,7 +4,8 @@
               harness issues the nested ops (Dispatch / sweep / ReapTimeout) from INSIDE the first / the
               k-th completion callback this op causes - events landing while a completion is in flight
               (another dispatcher thread, the reaper goroutine's sweep).  Their observations follow the
-              op's own; (-9 0 ()) = not run because no such callback fired.
+              op's own; (-9 0 ()) = not run because no such callback fired; (-8 0 comps) = the owner
+              thread dead-locked inside this op (established from a goroutine dump).
             | (0 sync adj)          Call (sync = 1, on its own goroutine) / AsyncCall; adj = 0: the deadline
                                     the code computes (now + 60 s = 60000 in ms since the start of the
                                     history), else the deadline is placed at adj ms through the hook
@@ -104,7 +105,7 @@ Definition no_comps (b : obs) : bool := match oc b with [] => true | _ => false 
 
 (* ---- walk 1: the model ---- *)
 Definition cmp_model (o : op) (x : out) (b : obs) : verdict :=
-  vjoin (check_that (negb (oa b =? -9)) (VMismatch 4))
+  vjoin (check_that (negb (oa b =? -9) && negb (oa b =? -8)) (VMismatch 4))
  (vjoin (check_that (match o with OCall _ _ => oseq x =? oa b | _ => true end) (VMismatch 1))
  (vjoin (check_that (match o with OCall _ _ => true | _ => ores x =? ob b end) (VMismatch 2))
         (check_that (comps_eqb (ocomps x) (oc b)) (VMismatch 3)))).
@@ -205,6 +206,9 @@ Fixpoint walk_prop (fuel : nat) (s : st) (swept : list Z) (ops : list hop) (os :
   match ops, os with
   | HPrim o k nested :: ops', b :: os' =>
       if oa b =? -9 then VBad else
+      (* the owner thread dead-locked inside this op (goroutine dump: parked in the client's mutex
+         which nobody else can hold): the calls it was about to complete are never completed *)
+      if oa b =? -8 then VPropFail (match o with OReap => 5 | ODispatch _ => 3 | _ => 7 end)%N else
       let '(s', sw', ncb, v1) := prop_one s swept o b in
       let '(s2, sw2, v, rest) := nest_prop (match nested with [] => false | _ => k <=? ncb end) s' sw' nested os' in
       vjoin v1 (vjoin v (walk_prop fuel s2 sw2 ops' rest))
